@@ -43,7 +43,49 @@ def _statuses(R):
     return out
 
 
+def _seed_overrides(ix, sid):
+    """texts of the files touched by seeded/<sid>/patch.diff after applying it to
+    copies of the current tree's files in a throw-away directory (never in /repo)"""
+    import re, shutil, subprocess, tempfile
+    here = os.path.dirname(os.path.dirname(os.path.abspath(__file__)))
+    pth = os.path.join(here, 'seeded', sid, 'patch.diff')
+    text = open(pth).read()
+    rels = sorted(set(re.findall(r'^\+\+\+ b/(\S+)', text, flags=re.M)))
+    tmp = tempfile.mkdtemp(prefix='sa-seed-')
+    try:
+        for rel in rels:
+            src = os.path.join(ix.root, rel)
+            if not os.path.exists(src):
+                return None, 'file %s is gone' % rel
+            os.makedirs(os.path.dirname(os.path.join(tmp, rel)), exist_ok=True)
+            shutil.copy(src, os.path.join(tmp, rel))
+        r = subprocess.run(['patch', '-p1', '-s', '-f', '-d', tmp, '-i', pth], capture_output=True, text=True)
+        if r.returncode != 0:
+            return None, 'patch no longer applies'
+        return {rel: open(os.path.join(tmp, rel)).read() for rel in rels if rel.endswith('.py')}, ''
+    finally:
+        shutil.rmtree(tmp, ignore_errors=True)
+
+
+def _one_seed(args):
+    kind, sid, expect = args
+    from .run import run_property
+    ix = _G['ix']
+    ov, why = _seed_overrides(ix, sid)
+    if ov is None:
+        return (kind, sid, 'stale', why)
+    st, R = run_property(_G['prop'], 'quick', overrides=ov, quiet=True, base=ix, evidence=False)
+    base = _G['base']
+    now = _statuses(R)
+    fired = sorted({k[0] for k, v in now.items() if v == VIOL and base.get(k) != VIOL})
+    if not fired:
+        return (kind, sid, 'missed', 'seeded change %s is not reported (expected %s)' % (sid, expect))
+    return (kind, sid, 'killed', ', '.join(fired))
+
+
 def _one(args):
+    if args[0] == 'seed':
+        return _one_seed(args)
     kind, name, rel, old, new, expect = args
     from .run import run_property
     ix = _G['ix']
@@ -100,6 +142,19 @@ def selftest(prop, mod, ix, R, seed=0):
     eqs = list(getattr(mod, 'EQUIVALENTS', []))
     jobs = [('mutant',) + tuple(m) for m in muts] + \
            [('equiv',) + tuple(e) + (None,) for e in eqs]
+    # confirmed seeded changes (seeded/<id>/) that this property's check is on record as reporting
+    import json
+    here = os.path.dirname(os.path.dirname(os.path.abspath(__file__)))
+    sdir = os.path.join(here, 'seeded')
+    seeds = []
+    for sid in sorted(os.listdir(sdir)) if os.path.isdir(sdir) else []:
+        mp = os.path.join(sdir, sid, 'meta.json')
+        if os.path.exists(mp):
+            nf = json.load(open(mp)).get('now_fires', {})
+            if prop in nf:
+                seeds.append(('seed', sid, nf[prop]))
+    jobs += seeds
+    muts = muts + [(j[1],) for j in seeds]
     if not jobs:
         return {'variants': 0}
     _G.update(ix=ix, prop=prop, base=_statuses(R))
